@@ -212,6 +212,7 @@ func c07Run(c c07Case, dir string, rec *vh.Recorder) error {
 		cbPid          int
 		cbProblem      string
 		nsPid          string
+		markerEarly    bool // the target's first action was visible before the callback returned
 	)
 	self, _ := os.Readlink("/proc/self/exe")
 	if c.Sync {
@@ -233,6 +234,9 @@ func c07Run(c c07Case, dir string, rec *vh.Recorder) error {
 				}
 			}
 			cbEnd = time.Now()
+			if _, err := os.Stat(marker); err == nil {
+				markerEarly = true
+			}
 			if c.Inject == "callback-error" {
 				return errC07Callback
 			}
@@ -372,9 +376,10 @@ func c07Run(c c07Case, dir string, rec *vh.Recorder) error {
 			if !cbRan {
 				return vh.Violf("C07:callback-skipped", "SyncFunc was never called; %s", desc)
 			}
-			fi, _ := os.Stat(marker)
-			if fi.ModTime().Before(cbEnd.Add(-10 * time.Millisecond)) {
-				return vh.Violf("C07:ran-before-approval", "marker written at %v, callback ran %v .. %v: target code ran before the callback returned; %s", fi.ModTime(), cbStart, cbEnd, desc)
+			// (a causal observation, not a comparison of clocks: file times come from the kernel's coarse clock, which on a
+			// loaded VM lagged the callback's own clock by more than 10 ms)
+			if markerEarly {
+				return vh.Violf("C07:ran-before-approval", "the target's marker existed when the callback (%v .. %v) was about to return: target code ran before approval; %s", cbStart, cbEnd, desc)
 			}
 			if got := rep.IDs["pid"]; len(got) == 1 && nsPid != "" && strconv.FormatInt(got[0], 10) != nsPid {
 				return vh.Violf("C07:callback-pid", "callback's process has NSpid %s, the target reports pid %d; %s", nsPid, got[0], desc)
@@ -561,6 +566,7 @@ func TestC07Container(t *testing.T) {
 		var cbRan bool
 		var cbProblem string
 		var cbEnd time.Time
+		markerEarly := false
 		if c.Sync != "none" {
 			p.SyncFunc = func(pid int) error {
 				cbRan = true
@@ -585,6 +591,9 @@ func TestC07Container(t *testing.T) {
 					}
 				}
 				cbEnd = time.Now()
+				if _, err := os.Lstat(fmt.Sprintf("/proc/%d/root/w/marker", initPid)); err == nil {
+					markerEarly = true
+				}
 				if c.Sync == "fail" {
 					return errC07Callback
 				}
@@ -605,9 +614,10 @@ func TestC07Container(t *testing.T) {
 		if r2, err := env.Open([]container.OpenCmd{{Path: "/w/marker", Flag: os.O_RDONLY}}); err == nil && len(r2) == 1 && r2[0].File != nil {
 			if fi, err := r2[0].File.Stat(); err == nil {
 				markerThere = true
-				if c.Sync == "ok" && !c.AfterExec && fi.ModTime().Before(cbEnd.Add(-10*time.Millisecond)) {
+				_ = fi
+				if c.Sync == "ok" && !c.AfterExec && markerEarly {
 					r2[0].File.Close()
-					return vh.Violf("C07:ran-before-approval", "marker mtime %v before the callback finished %v; %s", fi.ModTime(), cbEnd, desc)
+					return vh.Violf("C07:ran-before-approval", "the marker existed when the callback was about to return (%v); %s", cbEnd, desc)
 				}
 			}
 			r2[0].File.Close()
